@@ -265,3 +265,25 @@ def run(ck):
                     else:
                         break
             ck.ob("TAB", f.path, "tombstone-reads-absent", ok, "the Deleted arm yields None", f.loc())
+
+    iterator_step_rules(ck, c)
+
+
+def iterator_step_rules(ck, c):
+    """MutableTrie::next: a child is visited only if its index is below the number of children, and the position recorded
+    for the way back is the NEXT child (otherwise iteration revisits the same child forever)"""
+    f = getfn(ck, "sc", E, MT + "next")
+    if not f:
+        return
+    idx = [(bi, t) for (bi, t) in f.calls(r"ops::Index::index$") if "KeyIndexPair" in (t["f"].get("self") or "")]
+    ok = len(idx) == 1 and any(k == "cmp:Lt" and v is True and "children" in nn and "len" in nn for (k, nn, v) in conditions_at(f, idx[0][0]))
+    ck.ob("BOUNDS", f.path, "child-index-below-number-of-children", ok, "children[next_child] is reached only under next_child < children.len()", f.loc(idx[0][0]) if idx else f.loc())
+    pushes = [(bi, t) for (bi, t) in f.calls(r"Vec::<T, A>::push$") if ("field", "stack") in f.origins(t["args"][0], deep=True)]
+    ok = False
+    for (bi, t) in pushes:
+        pl = op_place(t["args"][1])
+        for (b2, si, it) in (f.defs().get(pl[0], []) if pl else []):
+            if si != "t" and it["rv"].get("k") == "agg" and it["rv"].get("agg") == "tuple" and len(it["rv"]["ops"]) == 3:
+                o = f.origins(it["rv"]["ops"][1], deep=True)
+                ok = any(a[0] == "bin" and a[1].startswith("Add") for a in o) and ("lit", 1) in o
+    ck.ob("DEFUSE", f.path, "resumes-at-next-child", len(pushes) == 1 and ok, "the position saved for the parent is next_child + 1", f.loc(pushes[0][0]) if pushes else f.loc())
